@@ -399,7 +399,8 @@ def _np_out(d):
 
 
 def _compare_grads(ns, sub, label, g_lib, g_ref, slack=1.0, extra=None):
-    """Leaves agree within 2e-4 relative + 1e-4 x slack x (largest reference gradient entry)
+    """Leaves agree within 2e-4 relative + 5e-4 x slack x (largest reference gradient entry; float32 reductions
+    evaluated in two different orders differ by up to ~2e-4 of it, seen in the thorough tier)
     (+ a per-leaf absolute allowance ``extra`` measured by _grad_conditioning)."""
     a = ns.leaves(g_lib)
     b = ns.leaves(g_ref)
@@ -408,7 +409,7 @@ def _compare_grads(ns, sub, label, g_lib, g_ref, slack=1.0, extra=None):
     bad = []
     for k in sorted(b):
         ex = (extra or {}).get(k, 0.0)
-        if not close(a[k], b[k], scale=gmax * slack + ex / 1e-4, rel=2e-4, abs_=1e-4):
+        if not close(a[k], b[k], scale=gmax * slack + ex / 5e-4, rel=2e-4, abs_=5e-4):
             bad.append((k, maxdiff(a[k], b[k])))
     return bad, gmax
 
